@@ -10,11 +10,13 @@ everyone else strict), cache evictions and GC at yield points (strict).
 
 from __future__ import annotations
 
+import itertools
 import os
 import pickle
 import select
 import signal
 import sys
+import tempfile
 from typing import Any
 
 from . import corpus, sched
@@ -135,7 +137,105 @@ def exec_call(c: dict[str, Any]) -> str:
             kw["heuristic"] = functools.partial(_heuristic, kw["heuristic"])
             return "\x00".join(flowmark.split_sentences_regex(c["text"], **kw)) + "\x01" + flowmark.first_sentence(c["text"], heuristic=functools.partial(_heuristic, c["kw"]["heuristic"])) + "\x01" + "\x00".join(flowmark.first_sentences(c["text"], 2, heuristic=functools.partial(_heuristic, c["kw"]["heuristic"])) if hasattr(flowmark, "first_sentences") else [])
         return "\x00".join(flowmark.split_sentences_regex(c["text"], **kw)) + "\x01" + flowmark.first_sentence(c["text"]) + "\x01" + "\x00".join(flowmark.wrap_paragraph_lines(c["text"], width=kw.get("min_length", 15) + 25))
+    if api == "pipeline":
+        # the stages of fill_markdown used directly (parse, tree transforms with library and
+        # user rewrite functions, render) - the documented way to add one's own transform
+        from flowmark.formats.frontmatter import split_frontmatter
+        from flowmark.linewrapping.tag_handling import preprocess_tag_block_spacing
+        from flowmark.transforms.doc_cleanups import doc_cleanups
+        from flowmark.transforms.doc_transforms import rewrite_text_across_inlines, rewrite_text_content
+        from flowmark.typography.ellipses import ellipses
+        from flowmark.typography.smartquotes import smart_quotes
+
+        fm, content = split_frontmatter(c["text"])
+        md = flowmark.flowmark_markdown(kw["line_wrapper"], kw.get("list_spacing", ListSpacing.preserve))
+        doc = md.parse(preprocess_tag_block_spacing((content if fm else c["text"]).strip() + "\n"))
+        for st in c["stages"]:
+            if st == "cleanups":
+                doc_cleanups(doc)
+            elif st == "smartquotes":
+                rewrite_text_across_inlines(doc, smart_quotes)
+            elif st == "ellipses":
+                rewrite_text_content(doc, ellipses, coalesce_lines=True)
+            elif st == "upper":
+                rewrite_text_content(doc, _user_rewrite)
+            elif st == "upper_coalesced":
+                rewrite_text_content(doc, _user_rewrite, coalesce_lines=True)
+            elif st == "across_user":
+                rewrite_text_across_inlines(doc, _user_rewrite)
+        return fm + md.render(doc)
+    if api == "helpers":
+        from flowmark.formats.frontmatter import has_frontmatter, split_frontmatter
+        from flowmark.linewrapping.tag_handling import preprocess_tag_block_spacing
+        from flowmark.typography.ellipses import ellipses
+        from flowmark.typography.smartquotes import smart_quotes
+
+        t = c["text"]
+        sp = flowmark.get_html_md_word_splitter()
+        return "\x01".join([smart_quotes(t), ellipses(t), "\x00".join(split_frontmatter(t)), str(has_frontmatter(t)), "\x00".join(sp(t)), "\x00".join(flowmark.simple_word_splitter(t)), preprocess_tag_block_spacing(t)])
+    if api == "cli":
+        # the command-line layer called repeatedly in one process (an editor plug-in, a test
+        # runner, a pre-commit hook all do): main(argv) on a private copy of the document in a
+        # project directory that holds the run's config file; the outcome is exit code + bytes
+        from flowmark.cli import main
+
+        d = _cli_dir(c["cfg"])
+        path = os.path.join(d, f"doc{next(_CLI_SEQ)}.md")
+        with open(path, "w", encoding="utf-8", newline="") as f:
+            f.write(c["text"])
+        os.chdir(d)  # (every cli call of a run uses the same directory: idempotent across threads)
+        argv = list(c["argv"])
+        out_path = path
+        if c["mode"] == "out":
+            out_path = path + ".out"
+            argv += ["-o", out_path]
+        code = main(argv + [path])
+        try:
+            with open(out_path, encoding="utf-8", newline="") as f:
+                got = f.read()
+        except OSError:
+            got = "<no output>"
+        for q in (path, path + ".out", path + ".orig"):
+            try:
+                os.unlink(q)
+            except OSError:
+                pass
+        return f"{code}\x01{got}"
     raise ValueError(api)
+
+
+_CLI_SEQ = itertools.count()
+_CLI_DIRS: dict[str, str] = {}
+SCRATCH_BASE = "/dev/shm" if os.path.isdir("/dev/shm") and os.access("/dev/shm", os.W_OK) else tempfile.gettempdir()
+
+
+def _cli_dir(cfg: dict[str, str] | None) -> str:
+    key = digest([os.getpid(), cfg], 16)
+    d = _CLI_DIRS.get(key)
+    if d is None:
+        d = tempfile.mkdtemp(prefix="dst-c13-" + os.environ.get("VERIF_RUN_TAG", "x") + "-", dir=SCRATCH_BASE)
+        d = os.path.join(d, "proj")
+        os.makedirs(d)
+        # a barrier above the project so that no config file farther up is ever consulted
+        with open(os.path.join(os.path.dirname(d), ".flowmark.toml"), "w") as f:
+            f.write("")
+        if cfg:
+            with open(os.path.join(d, cfg["name"]), "w", encoding="utf-8") as f:
+                f.write(cfg["text"])
+        _CLI_DIRS[key] = d
+    return d
+
+
+def _cleanup_cli_dirs() -> None:
+    import shutil
+
+    for d in list(_CLI_DIRS.values()):
+        shutil.rmtree(os.path.dirname(d), ignore_errors=True)
+    _CLI_DIRS.clear()
+
+
+def _user_rewrite(s: str) -> str:
+    return s.replace("the", "THE").replace("--", "\u2014")
 
 
 def outcome_of(c: dict[str, Any]) -> tuple[str, str]:
@@ -161,6 +261,7 @@ def pristine_outcome(c: dict[str, Any]) -> tuple[str, str]:
         try:
             os.close(r)
             data = pickle.dumps(outcome_of(c))
+            _cleanup_cli_dirs()
             off = 0
             while off < len(data):
                 off += os.write(w, data[off : off + 65536])
@@ -189,7 +290,8 @@ def pristine_outcome(c: dict[str, Any]) -> tuple[str, str]:
 # ---------------------------------------------------------------------------------------------
 # workload generation
 
-APIS = ["reformat_text"] * 8 + ["fill_markdown"] * 4 + ["fill_text"] * 2 + ["convert"] * 2 + ["reuse"] + ["wrap_paragraph"] + ["sentences"] * 2
+APIS = ["reformat_text"] * 8 + ["fill_markdown"] * 4 + ["fill_text"] * 2 + ["convert"] * 2 + ["reuse"] + ["wrap_paragraph"] + ["sentences"] * 2 + ["pipeline"] * 2 + ["helpers"]
+STAGES = ["cleanups", "smartquotes", "ellipses", "upper", "upper_coalesced", "across_user"]
 WRAPS = ["none", "wrap", "wrap_full", "wrap_indent", "indent_only", "hanging_indent", "markdown_item"]
 
 
@@ -244,6 +346,10 @@ def gen_call(rng: Any, text: str | None = None, base: dict[str, Any] | None = No
     if api == "reuse":
         a, b = corpus.gen_interference_pair(rng)
         return {"api": api, "texts": [a, b, text][: rng.randint(2, 3)], "kw": {"line_wrapper": _gen_wrapper(rng), "list_spacing": rng.choice(corpus.LIST_SPACINGS)}}
+    if api == "pipeline":
+        return {"api": api, "text": text, "stages": rng.sample(STAGES, rng.randint(0, 3)), "kw": {"line_wrapper": _gen_wrapper(rng), "list_spacing": rng.choice(corpus.LIST_SPACINGS)}}
+    if api == "helpers":
+        return {"api": api, "text": text, "kw": {}}
     if api == "sentences":
         # sentence helpers on a paragraph of a shared document (same text as the formatting calls see)
         paras = [p for p in text.split("\n\n") if p.strip()]
@@ -257,6 +363,50 @@ def gen_call(rng: Any, text: str | None = None, base: dict[str, Any] | None = No
         if paras:
             para = rng.choice(paras)
     return {"api": "wrap_paragraph", "text": para, "kw": {"width": rng.choice([20, 40, 88]), "initial_indent": rng.choice(["", "- "]), "subsequent_indent": rng.choice(["", "  "]), "is_markdown": rng.random() < 0.5}}
+
+
+def gen_cli_cfg(rng: Any) -> dict[str, str] | None:
+    """The project's config file for the cli calls of a run (None: no config file)."""
+    if rng.random() < 0.2:
+        return None
+    keys: dict[str, Any] = {}
+    if rng.random() < 0.7:
+        keys["width"] = rng.choice([30, 40, 60])
+    for kname in ("semantic", "cleanups", "smartquotes", "ellipses"):
+        if rng.random() < 0.35:
+            keys[kname] = rng.random() < 0.7
+    if rng.random() < 0.4:
+        keys["list-spacing"] = rng.choice(["loose", "tight", "preserve"])
+    if rng.random() < 0.2:
+        keys["files-max-size"] = rng.choice([0, 1_000_000])
+
+    def toml(v: Any) -> str:
+        return ("true" if v else "false") if isinstance(v, bool) else (str(v) if isinstance(v, int) else '"' + v + '"')
+
+    body = "".join(f"{k} = {toml(v)}\n" for k, v in keys.items())
+    name = rng.choice([".flowmark.toml", "flowmark.toml", "pyproject.toml"])
+    if name == "pyproject.toml":
+        body = '[project]\nname = "x"\n\n[tool.flowmark]\n' + body
+    elif rng.random() < 0.3:
+        body = "[formatting]\n" + body
+    return {"name": name, "text": body}
+
+
+def gen_cli_call(rng: Any, text: str, cfg: dict[str, str] | None) -> dict[str, Any]:
+    mode = rng.choice(["auto", "auto", "inplace", "out"])
+    argv: list[str] = []
+    if rng.random() < 0.4:
+        argv += rng.choice([["-w", str(rng.choice([20, 50, 60, 88]))], ["--width=" + str(rng.choice([50, 70]))]])
+    for flag in ("-s", "-c", "--smartquotes", "--ellipses"):
+        if rng.random() < 0.2:
+            argv.append(flag)
+    if rng.random() < 0.25:
+        argv += ["--list-spacing", rng.choice(["loose", "tight", "preserve"])]
+    if rng.random() < 0.12:
+        argv += rng.choice([["--files-max-size", "0"], ["--extend-include", "*.txt"], ["--no-respect-gitignore"], ["--force-exclude"], ["--extend-exclude", "drafts/"]])
+    argv += {"auto": ["--auto"], "inplace": rng.choice([["-i"], ["-i", "--nobackup"]]), "out": []}[mode]
+    rng.shuffle(argv) if "-w" not in argv and "--list-spacing" not in argv and "--files-max-size" not in argv and "--extend-include" not in argv and "--extend-exclude" not in argv else None
+    return {"api": "cli", "text": text, "argv": argv, "mode": "out" if mode == "out" else "inplace", "cfg": cfg, "kw": {}}
 
 
 def call_text_len(c: dict[str, Any]) -> int:
@@ -445,6 +595,11 @@ def gen_case(run_seed: int, tier: str, index: int | None = None) -> dict[str, An
 
     pool.append(corpus.DISCRIMINATING_DOC)
     base = corpus.gen_options(w, allow_plaintext=False) if w.random() < 0.7 else None
+    # some runs are (mostly) a history of command-line invocations in one process, all in one
+    # project directory with one config file
+    cw = sub_rng(run_seed, "cli")
+    cli_run = cw.random() < 0.1
+    cli_cfg = gen_cli_cfg(cw) if cli_run else None
     total_calls = 0
     for e in range(n_epochs):
         concurrent = w.random() < 0.65
@@ -457,7 +612,10 @@ def gen_case(run_seed: int, tier: str, index: int | None = None) -> dict[str, An
                 if total_calls >= 12:
                     break
                 text = w.choice(pool) if w.random() < 0.75 else None
-                calls.append(gen_call(w, text, base))
+                if cli_run and cw.random() < 0.65:
+                    calls.append(gen_cli_call(cw, text if text is not None else corpus.gen_doc(cw), cli_cfg))
+                else:
+                    calls.append(gen_call(w, text, base))
                 total_calls += 1
                 last = calls[-1]
                 if last["api"] == "sentences" and "heuristic" in last["kw"] and w.random() < 0.8:
@@ -752,6 +910,15 @@ class PerEpoch(sched.Policy):
 
 
 def run_case(env: Env, case: dict[str, Any], want_trace: bool = False) -> dict[str, Any]:
+    cwd = os.getcwd()
+    try:
+        return _run_case(env, case, want_trace)
+    finally:
+        os.chdir(cwd)
+        _cleanup_cli_dirs()
+
+
+def _run_case(env: Env, case: dict[str, Any], want_trace: bool = False) -> dict[str, Any]:
     env.ensure_refs(case_calls(case))
     env.caches.clear_all()
     pol_desc = case["policy"]
